@@ -91,7 +91,9 @@ m('M85','flyt.go','\tcase uint64:\n\t\treturn int(v)\n\tcase float32:\n\t\tretur
 m('M86','flyt.go','\tif slice, ok := val.([]any); ok {\n\t\treturn slice\n\t}\n\n\t// Try to convert using reflection\n','\t// Try to convert using reflection\n')
 # negative controls
 m('N1','flyt.go','\t// Check context again\n\tif err := ctx.Err(); err != nil {\n\t\treturn "", fmt.Errorf("run: context cancelled after prep: %w", err)\n\t}\n','')
-m('N2','flyt.go','\t\t// Check context\n\t\tif err := ctx.Err(); err != nil {\n\t\t\treturn nil, fmt.Errorf("flow: exec cancelled: %w", err)\n\t\t}\n','')
+# (was negative control N2 until round 8: the flow's own context check looked redundant next to Run's; it is not for a
+# batch node that follows in the flow - runBatch calls prep without looking at the context - see VH_C05_batchSuccessor)
+m('M87','flyt.go','\t\t// Check context\n\t\tif err := ctx.Err(); err != nil {\n\t\t\treturn nil, fmt.Errorf("flow: exec cancelled: %w", err)\n\t\t}\n','')
 m('N3','flyt.go','tasks:   make(chan func(), workers*2),','tasks:   make(chan func(), workers),')
 m('N4','batch.go','\t\tidx := i\n\t\titm := item\n','\t\tidx := i\n\t\titm := item\n\t\t_ = 0\n')
 m('N5','flyt.go','\tclose(p.done)\n\tclose(p.tasks)','\tclose(p.tasks)\n\tclose(p.done)')
@@ -110,6 +112,7 @@ EXPECT = {
  'M62':['C15'],'M63':['C15'],'M64':['C15'],'M65':['C15'],'M66':['C15'],'M67':['C16'],'M68':['C16'],'M69':['C16'],'M70':['C16'],
  'M71':['C17'],'M72':['C17'],'M73':['C17'],'M75':['C19'],'M76':['C19'],'M77':['C19'],'M78':['C19'],'M79':['C19','C08'],
  'M80':['C14'],'M81':['C14'],'M82':['C15'],'M83':['C17'],'M84':['C19'],'M85':['C15'],'M86':['C15'],
- 'N1':None,'N2':None,'N3':None,'N4':None,'N5':None,
+ 'M87':['C05'],
+ 'N1':None,'N3':None,'N4':None,'N5':None,
 }
-NEG_CHECKS = {'M39a':['C08','C06','C09'],'M39b':['C08','C06','C09'],'N1':['C05','C01'],'N2':['C05','C03'],'N3':['C12','C08'],'N4':['C06'],'N5':['C12']}
+NEG_CHECKS = {'M39a':['C08','C06','C09'],'M39b':['C08','C06','C09'],'N1':['C05','C01'],'N3':['C12','C08'],'N4':['C06'],'N5':['C12']}
